@@ -182,7 +182,7 @@ class ProtocolContext:
                 self._cmd_tx_count += 1  # only now, as the re-send was not superseded
                 self._send_cmd(self._cmd, is_retry=True)
 
-            if isinstance(self._state, IsInIdle):
+            if isinstance(self._state, IsInIdle | Inactive):
                 self._loop.call_soon_threadsafe(self._check_buffer_for_cmd)
 
             elif isinstance(self._state, WantRply) and not self._qos.wait_for_reply:  # type: ignore[union-attr]
@@ -194,6 +194,13 @@ class ProtocolContext:
         if self._expiry_timer is not None:
             self._expiry_timer.cancel()
             self._expiry_timer = None
+
+        if (
+            self._fut is not None
+            and self._fut.done()
+            and isinstance(self._state, IsInIdle | Inactive)
+        ):  # previous cmd has finished, but the buffer has not been checked since
+            self._fut = None
 
         # when _fut.done(), three possibilities:
         #  _fut.set_result()
@@ -363,6 +370,23 @@ class ProtocolContext:
             self._lock.release()
             return
 
+        if isinstance(self._state, Inactive):  # apologise to any waiting senders
+            while True:
+                try:
+                    *_, fut = self._que.get_nowait()
+                except Empty:
+                    break
+                self._que.task_done()
+                if not fut.done():
+                    fut.set_exception(
+                        exc.ProtocolSendFailed(
+                            f"{self}: Send failed (no active transport?)"
+                        )
+                    )
+            self._cmd = self._qos = self._fut = None
+            self._lock.release()
+            return
+
         while True:
             try:
                 *_, self._cmd, self._qos, self._fut = self._que.get_nowait()
@@ -398,7 +422,8 @@ class ProtocolContext:
             try:  # the wrapped function (actual Tx.write)
                 await self._send_fnc(cmd)
             except exc.TransportError as err:
-                self.set_state(IsInIdle, exception=err)
+                if cmd is self._cmd:  # else has expired, or connection was lost
+                    self.set_state(IsInIdle, exception=err)
 
         # TODO: check what happens when exception here - why does it hang?
         assert cmd is not None, f"{self}: Coding error"
